@@ -544,11 +544,19 @@ func (p *Peer) Exchange(b []byte, wait time.Duration) (replies [][]byte, barrier
 		if err := p.SendRaw(Marshal(hb)); err != nil {
 			return replies, false
 		}
-		deadline := time.Now().Add(wait)
+		// escalating patience: a heartbeat dropped while an association is being replaced is retried soon
+		deadline := time.Now().Add([]time.Duration{wait / 10, wait / 3, wait}[attempt])
 		for time.Now().Before(deadline) {
-			r, ok := p.Recv(time.Until(deadline))
+			slice := time.Until(deadline)
+			if slice > 40*time.Millisecond {
+				slice = 40 * time.Millisecond
+			}
+			r, ok := p.Recv(slice)
 			if !ok {
-				break
+				if p.S.Exited() {
+					return replies, false
+				}
+				continue
 			}
 			if m, err := message.Parse(r); err == nil && m.MessageType() == message.MsgTypeHeartbeatResponse && m.Sequence() == seq {
 				return replies, true
